@@ -47,6 +47,7 @@ def run(ctx):
         ctx.guard("C04", "const values", lambda: data.const_census(ctx, prog, data.CONST_SCOPES["C04"], floor=1))
         ctx.guard("C04", "validator-outcomes", lambda: normal.validator_outcomes(ctx, prog))
         ctx.guard("C04", "parser-init", lambda: parser.initial_values(ctx, prog))
+        ctx.guard("C04", "run-counters", lambda: normal.run_counters(ctx, prog, ("validator", "parser")))
         ctx.guard("C04", "run-reports", lambda: parser.run_reports(ctx, prog))
         ctx.guard("C04", "summaries", lambda: summary.check(ctx, prog, 'parser_state::|ParseErrorEither|::from_bytes|::from_str', floor=4))
         ctx.guard("C04", "generic consts", lambda: summary.check_consts(ctx, prog, floor=13))
